@@ -258,6 +258,60 @@ func main() {
 	Show(@, s)
 }
 `,
+	"pkgvars": `package main
+
+import . "verif/engine/twin/h"
+
+var a = twice(b) + 1
+
+var b = c * 2
+
+var c = 5
+
+var names = []string{"x", "y"}
+
+var idx = map[string]int{names[0]: a, names[1]: b}
+
+func twice(x int) int {
+	Show(@); return x * 2
+}
+
+func init() {
+	Show(@, a, b, c); c++
+}
+
+func main() {
+	Show(@); t := a + b + c
+	Show(@, t, idx["x"], idx["y"])
+}
+`,
+	"generic": `package main
+
+import . "verif/engine/twin/h"
+
+type Num interface{ ~int | ~float64 }
+
+func Sum[T Num](xs []T) T {
+	Show(@); var s T
+	for _, x := range xs {
+		Show(@); s += x
+	}
+	Show(@); return s
+}
+
+func Pair[T any](a, b T) []T {
+	Show(@); out := []T{a}
+	Show(@); out = append(out, b)
+	Show(@); return out
+}
+
+func main() {
+	Show(@, Sum([]int{1, 2, 3}))
+	Show(@, Sum([]float64{1.5, 2}))
+	Show(@); ys := Pair("a", "b")
+	Show(@, ys, Pair(1, 2))
+}
+`,
 	"calls": `package main
 
 import . "verif/engine/twin/h"
@@ -442,11 +496,29 @@ type program struct {
 	Funcs []string // function names
 }
 
+var trailRe = regexp.MustCompile(`^(\s*)Show\(@([^;]*)\); (.+)$`)
+var jumpRe = regexp.MustCompile(`^(return|continue|break|goto|panic|fallthrough|defer|go |if |for |switch |select )`)
+
 var funcRe = regexp.MustCompile(`(?m)^func (?:\([^)]*\) )?([A-Za-z_][A-Za-z0-9_]*)\(`)
 
 func load(thorough bool) []program {
 	var ps []program
 	names := []string{"branch", "branch-both-ways", "typeswitch", "labels-goto", "nested-closures-defers", "multi-return-variadic", "embedding", "select-default", "loop", "calls", "recursion", "closure", "defer", "panic-recover", "panic-uncaught", "switch", "methods"}
+	names = append(names, "pkgvars", "generic")
+	// every program also in a second form with the marker AFTER the statement of its line (so that the statement a line
+	// breakpoint stops on is an assignment, an increment, a send ... and not always a call)
+	for _, n := range append([]string{}, names...) {
+		var out []string
+		for _, l := range strings.Split(corpus[n], "\n") {
+			// only statements without calls move: a callee's markers would print between the break and the line's own marker
+			if m := trailRe.FindStringSubmatch(l); m != nil && !jumpRe.MatchString(m[3]) && !strings.Contains(m[3], "(") {
+				l = m[1] + m[3] + "; Show(@" + m[2] + ")"
+			}
+			out = append(out, l)
+		}
+		corpus[n+"~trailing-markers"] = strings.Join(out, "\n")
+		names = append(names, n+"~trailing-markers")
+	}
 	for _, n := range names {
 		lines := strings.Split(corpus[n], "\n")
 		var marks []int
@@ -857,7 +929,7 @@ func main() {
 	r.Set("deviation_bound", bound)
 	r.Set("programs", len(ps))
 	r.Set("exhaustive", len(res.Abnormal) == 0)
-	r.Set("rule", "corpus of 17 sequential programs (branches, loops, calls, recursion, closures, defers, recovered and uncaught panics, switch/fallthrough, methods) with one Show(line) marker per breakable line; breakpoint sets: none, every marker line, each single line (thorough: each pair), each function, all functions, each function x each line in one request (both orders), all functions + every line; start with Continue or Step(DebugEntry); resume answers Continue/StepInto/StepOver/StepOut explored by deviation-bounded DFS (default Continue, <= bound deviations); states = distinct event traces")
+	r.Set("rule", "corpus of 19 sequential programs (branches, loops, calls, recursion, closures, defers, recovered and uncaught panics, switch/fallthrough, methods, dependent package-level variables + init, generic functions), each in two forms: marker before / after the statement of its line with one Show(line) marker per breakable line; breakpoint sets: none, every marker line, each single line (thorough: each pair), each function, all functions, each function x each line in one request (both orders), all functions + every line; start with Continue or Step(DebugEntry); resume answers Continue/StepInto/StepOver/StepOut explored by deviation-bounded DFS (default Continue, <= bound deviations); states = distinct event traces")
 	r.Assumptions = []string{"sequential programs only (no goroutines under the debugger)", "lines without a marker (compound statement headers) only take part in the transparency comparison", "every-line breakpoint sets are explored with one deviation less than the bound"}
 	for _, i := range []int{0, len(units) / 2, len(units) - 1} {
 		r.Sample(units[i].Base)
